@@ -55,15 +55,22 @@ theorem silkSyms_decode_indices_in_range (rate : Rate) (nbSubfr : Nat) (hnb : 1 
     IndicesOk rate nbSubfr condCoding prevSignalType prevLagIndex ix :=
   decodeIndices_ok rate nbSubfr hnb vadOrLbrr condCoding prevSignalType prevLagIndex c ix c' h
 
-example (c : Dec) : ∃ ix c', decodeIndices .wb 4 true 2 2 100 c = (ix, c') := ⟨_, _, rfl⟩
+example (c : Dec) : ∃ ix c', decodeIndices .wb 4 true 2 2 100 c = (ix, c') :=
+  ⟨(decodeIndices .wb 4 true 2 2 100 c).1, (decodeIndices .wb 4 true 2 2 100 c).2, (Prod.eta _).symm⟩
 
-/-- Every inverse-CDF slice the model hands to `ec_dec_icdf` — as regenerated from `/repo` — starts below 256,
-    is strictly decreasing down to a terminating `0`, and that `0` sits exactly at (number of symbols − 1);
-    and every constant of silk/define.h written as a literal in the model equals the regenerated value. -/
+/-- Every inverse-CDF slice the model hands to `ec_dec_icdf` starts below 256, is strictly decreasing down to a
+    terminating `0`, and that `0` sits exactly at (number of symbols − 1); every constant of silk/define.h written
+    as a literal in the model equals the table-file value. -/
 theorem silkSyms_tables_wellformed : slicesOk = true ∧ SilkSyms.constsOk = true :=
   ⟨slicesOk_true, constsOk_true⟩
 
-example : usedSlices.length = 237 := by decide
+/-- The reference is frozen and the tree still agrees with it: each of the frozen normative tables and constants
+    the model reads (OpusModel/SilkSymsFrozen.lean) is equal to the value regenerated from `/repo` on this run.
+    A changed probability-table entry in the tree breaks this theorem (and makes `opus_decode` disagree with the
+    reference on concrete packets in the correspondence run). -/
+theorem silkSyms_tables_frozen_eq_repo : frozenEqAll = true := frozenEqAll_true
+
+example : usedSlices.length = 168 := by decide +kernel
 
 /-- The only C loop of the symbol layer without a syntactic bound, `while( sum_pulses[i] == SILK_MAX_PULSES+1 )`
     (decode_pulses.c:72), is modelled by its ten possible iterations.  Whatever the decoder state and whatever
@@ -88,6 +95,7 @@ theorem silkSyms_pulses_fit_int16 (sig qoff frameLen : Nat) (hs : sig ≤ 2) (c 
   have := (hp.signed b hb).2 v hvb
   omega
 
-example (c : Dec) : ∃ p c', decodePulses 2 1 320 c = (p, c') := ⟨_, _, rfl⟩
+example (c : Dec) : ∃ p c', decodePulses 2 1 320 c = (p, c') :=
+  ⟨(decodePulses 2 1 320 c).1, (decodePulses 2 1 320 c).2, (Prod.eta _).symm⟩
 
 end OpusProps.C03
